@@ -861,7 +861,7 @@ impl Check for C34 {
         tier.pick(4000, 80_000)
     }
     fn budget_s(&self, tier: Tier) -> u64 {
-        tier.pick(20, 380)
+        tier.pick(20, 340)
     }
     fn min_nontrivial(&self, tier: Tier) -> u64 {
         tier.pick(200, 2000)
